@@ -1,4 +1,5 @@
 """C19 - parameters stay inside their declared domain; clones are configuration-equal (DESIGN 3, C19)."""
+import re
 import math
 
 from ..facts import AnalysisBroken, walk, strip_targs
@@ -531,6 +532,44 @@ def rule_enum_roundtrip(F, R):
                 "name `%s` of %s is read back as %s: an accepted assignment of this value is not read back as assigned" % (bad[0][1], bad[0][0], bad[0][2]) if bad else "")
 
 
+INTEGRAL = {"char", "signed char", "unsigned char", "short", "unsigned short", "int", "unsigned int", "long", "unsigned long", "long long", "unsigned long long"}
+
+
+def rule_string_kind(F, R):
+    """R-C19-8: a numeric string assigned to a parameter is parsed in the parameter's own kind: in parameter_t::operator=(string) the values
+    handed to update() for an integer (pair) parameter come from an integer parser (their own type - before any implicit conversion - is
+    integral), those for a real (pair) parameter from a floating-point one. An integer read through a double is rounded above 2^53 before it
+    is validated and stored: "9007199254740993" is stored as ...992, a bound can be reached from outside the domain."""
+    fs = [f for f in F.functions.values() if f.qn == "nano::parameter_t::operator=" and f.params and "basic_string" in (f.params[0].get("t") or "") and f.body is not None]
+    if not fs:
+        raise AnalysisBroken("parameter_t::operator=(string) not found")
+    f = fs[0]
+    n = 0
+    for lam, g in F.lambdas_in(f):
+        if not g.params:
+            continue
+        pt = g.params[0].get("t") or ""
+        m = re.search(r"range_t<(\w[\w ]*),", pt)
+        if not m:
+            continue
+        integral = m.group(1).strip() in INTEGRAL
+        for c in g.calls(lambda c: callee(c).split("::")[-1] == "update" and len(args(c)) >= 3):
+            for a_ in args(c)[2:]:
+                x = skip(a_)
+                while x["k"] == "cast" and not x.get("ex") and x.get("c"):
+                    x = skip(x["c"][0])             # peel implicit conversions: the parser's own result type counts
+                t = (x.get("t") or "").replace("const ", "").strip()
+                n += 1
+                ok = (t in INTEGRAL) if integral else (t in ("double", "float", "long double"))
+                R.check(ok, "R-C19-8", "%s <- %s" % (pt.split("::")[-1][:30], pp(x)[:30]), g.loc(c),
+                        "the string is parsed as %s" % ("an integer" if integral else "a real number"),
+                        "the value for a parameter stored as `%s` is parsed as `%s` (`%s`): %s" % (
+                            m.group(1), t, pp(x)[:40],
+                            "integers above 2^53 are rounded before they are validated and stored - an accepted string is not read back as assigned, a rejected one may be "
+                            "accepted" if integral else "the fractional part of the assigned value is lost"))
+    R.floor("R-C19-8", n, 6, "parsed values handed to update() in parameter_t::operator=(string)")
+
+
 def run(ctx):
     R = ctx.report
     tus = ctx.all_tus() if ctx.thorough else QUICK_TUS
@@ -542,3 +581,4 @@ def run(ctx):
     rule_clone(F, R, fns, ctx.thorough)
     rule_lookup(F, R)
     rule_enum_roundtrip(F, R)
+    rule_string_kind(F, R)
